@@ -59,6 +59,11 @@ Advance(c0, trk, call, o) ==
                                                   k |-> 0, cp |-> FALSE, dead |-> FALSE]) ELSE trk
     [] call.op = "clone" ->
          IF o.k = "unit" /\ HasIt(trk, call.it) THEN SetIt(trk, call.to, ItOf(trk, call.it)) ELSE trk
+    [] call.op = "nth" ->        \* nth(n) consumes n + 1 items (or exhausts / kills the iterator)
+         IF ~HasIt(trk, call.it) THEN trk
+         ELSE LET s == ItOf(trk, call.it) IN
+              SetIt(trk, call.it, [s EXCEPT !.k = IF o.k \in {"some", "none"} THEN s.k + call.n + 1 ELSE s.k,
+                                            !.dead = s.dead \/ o.k \in {"panic", "crash", "hang"}])
     [] call.op = "next" ->
          IF ~HasIt(trk, call.it) THEN trk
          ELSE LET s == ItOf(trk, call.it)
@@ -92,11 +97,28 @@ C02_Accept(c, trk, call, o) ==
     [] OTHER -> TRUE
 
 \* ---- C03 ---------------------------------------------------------------------------
+\* Iterator methods other than next() must agree with repeated next()
+AcceptWalkNth(w, k, dead, n, o) ==
+  IF dead THEN o.k \in {"panic", "none"}
+  ELSE IF k + n < Len(w.items) THEN o.k = "some" /\ o.v.at = w.items[k + n + 1].at /\ o.v.sv = RoundUp8(w.items[k + n + 1].size)
+  ELSE IF w.fin = "none" THEN o.k = "none" ELSE o.k = "panic"
+AcceptWalkCount(w, k, dead, o) ==
+  IF dead THEN TRUE
+  ELSE IF w.fin = "none" THEN IsVal(o, U64Bytes(IF k <= Len(w.items) THEN Len(w.items) - k ELSE 0)) ELSE o.k = "panic"
 \* receiver missing (constructor never returned): only "skipped" is acceptable
 C03_Accept(c, trk, call, o) ==
   CASE call.op = "tags" -> IF trk.loaded = "bi" THEN o.k = "unit" ELSE o.k = "skipped"
     [] call.op = "module_tags" -> IF trk.loaded = "bi" THEN o.k = "unit" ELSE o.k = "skipped"
     [] call.op = "clone" -> IF HasIt(trk, call.it) THEN o.k = "unit" ELSE o.k = "skipped"
+    [] call.op \in {"nth", "count"} /\ HasIt(trk, call.it) /\ ItOf(trk, call.it).kind = "tags" ->
+         LET s == ItOf(trk, call.it)  w == InfoWalk(c.mem) IN
+         IF call.op = "nth" THEN AcceptWalkNth(w, s.k, s.dead, call.n, o) ELSE AcceptWalkCount(w, s.k, s.dead, o)
+    [] call.op = "count" /\ HasIt(trk, call.it) /\ ItOf(trk, call.it).kind = "module_tags" ->
+         LET s == ItOf(trk, call.it)  w == InfoWalk(c.mem)  ms == ModItems(w)
+             rest == SubSeq(ms, s.k + 1, Len(ms)) IN
+         IF s.dead \/ s.cp THEN TRUE
+         ELSE IF w.fin = "panic" \/ \E i \in 1..Len(rest) : rest[i].size < ModuleBase THEN o.k = "panic"
+         ELSE IsVal(o, U64Bytes(Len(rest)))
     [] call.op = "next" ->
          IF ~HasIt(trk, call.it) THEN o.k = "skipped"
          ELSE LET s == ItOf(trk, call.it)  w == InfoWalk(c.mem) IN
@@ -300,6 +322,15 @@ C18_Accept(c, trk, call, o) ==
   CASE call.op = "efi_areas" ->
          IF trk.loaded # "bi" THEN o.k = "skipped"
          ELSE AcceptIterNew(c, "efi_mmap", HasTagIt(c, "efi_mmap") /\ EfiValid(EfiParams(c.mem, EfiIt(c))), o)
+    [] call.op \in {"nth", "count"} /\ HasIt(trk, call.it) /\ ItOf(trk, call.it).kind = "efi" ->
+         LET s == ItOf(trk, call.it) IN
+         IF ~HasTagIt(c, "efi_mmap") THEN FALSE
+         ELSE LET p == EfiParams(c.mem, EfiIt(c)) IN
+              IF ~EfiValid(p) THEN o.k = "panic" \/ (s.dead /\ o.k = "none")
+              ELSE IF s.dead THEN TRUE
+              ELSE IF call.op = "count" THEN IsVal(o, U64Bytes(IF s.k <= EfiCount(p) THEN EfiCount(p) - s.k ELSE 0))
+              ELSE IF s.k + call.n < EfiCount(p) THEN o.k = "some" /\ o.v.at = EfiItem(c.mem, EfiIt(c), p, s.k + call.n).at
+              ELSE o.k = "none"
     [] call.op \in {"next", "len", "size_hint"} /\ HasIt(trk, call.it) /\ ItOf(trk, call.it).kind = "efi" ->
          LET s == ItOf(trk, call.it) IN
          IF ~HasTagIt(c, "efi_mmap") THEN FALSE      \* an iterator over a tag that is not there
@@ -383,6 +414,9 @@ C11_Accept(c, trk, call, o) ==
     [] call.op = "htags" -> IF trk.loaded = "hdr" THEN o.k = "unit" ELSE o.k = "skipped"
     [] call.op = "next" /\ HasIt(trk, call.it) /\ ItOf(trk, call.it).kind = "htags" ->
          LET s == ItOf(trk, call.it) IN AcceptHNext(HWalk(c.mem), s.k, s.dead, o)
+    [] call.op \in {"nth", "count"} /\ HasIt(trk, call.it) /\ ItOf(trk, call.it).kind = "htags" ->
+         LET s == ItOf(trk, call.it)  w == HWalk(c.mem) IN
+         IF call.op = "nth" THEN AcceptWalkNth(w, s.k, s.dead, call.n, o) ELSE AcceptWalkCount(w, s.k, s.dead, o)
     [] IsHdrRead(call) ->
          IF trk.loaded # "hdr" THEN o.k = "skipped"
          ELSE LET g == HGetSpec(c.mem, call.kind) IN
@@ -394,7 +428,7 @@ C05_HAccept(c, trk, call, o) ==
   ELSE AcceptHdrRead(c, trk, call, o)
 \* C09: never outside the declared header, never a crash
 C09_Accept(c, trk, call, o) ==
-  IF call.op \in HeaderOps \/ (call.op \in {"next", "clone"} /\ HasIt(trk, call.it) /\ ItOf(trk, call.it).kind = "htags")
+  IF call.op \in HeaderOps \/ (call.op \in {"next", "clone", "nth", "count"} /\ HasIt(trk, call.it) /\ ItOf(trk, call.it).kind = "htags")
   THEN /\ Controlled(o)
        /\ LET L == U32At(c.mem, 8) IN \A e \in Exts(o) : Inside(e, 16, L)
   ELSE TRUE
@@ -467,7 +501,7 @@ C20_Accept(c, trk, call, o) ==
     [] OTHER -> TRUE
 
 \* ---- C01: never outside the region, never a crash, references inside the owning tag ------------
-InfoOps == {"custom_get", "load", "tags", "module_tags", "efi_areas", "elf_sections", "elf_sections_deprecated", "next", "clone",
+InfoOps == {"nth", "count", "custom_get", "load", "tags", "module_tags", "efi_areas", "elf_sections", "elf_sections_deprecated", "next", "clone",
             "len", "size_hint", "get", "field", "str", "area", "dbg", "elf_field", "elf_name"}
 \* the extent a call's results must stay in
 OwnerExtent(c, trk, call) ==
@@ -480,7 +514,7 @@ OwnerExtent(c, trk, call) ==
   ELSE IF call.op = "load" THEN <<0, T>>
   ELSE <<8, T>>
 C01_Accept(c, trk, call, o) ==
-  IF call.op \notin InfoOps \/ (call.op \in {"next", "clone", "len", "size_hint"} /\ HasIt(trk, call.it)
+  IF call.op \notin InfoOps \/ (call.op \in {"next", "clone", "len", "size_hint", "nth", "count"} /\ HasIt(trk, call.it)
                                 /\ ItOf(trk, call.it).kind \in {"htags", "dummy"}) THEN TRUE
   ELSE /\ Controlled(o)
        /\ LET oe == OwnerExtent(c, trk, call) IN \A e \in Exts(o) : Inside(e, oe[1], oe[2])
@@ -590,6 +624,9 @@ DesignCustomGet(c, call) ==
             IF r.k = "panic" THEN Panic
             ELSE Some([at |-> r.v.at, sv |-> r.v.sv, tat |-> f.it.at + RoundUp(call.fixed, call.ea), n |-> r.v.n, tlen |-> r.v.n * call.es])
 
+\* the default Iterator::nth / count: repeated next().  left = calls still to make (-1: until None); cnt = items seen
+RECURSIVE DesignIterMany(_, _, _, _, _)
+NthView(o) == IF o.k = "some" THEN Some([at |-> o.v.at, sv |-> IF Has(o.v, "sv") THEN o.v.sv ELSE 40]) ELSE o
 DesignStep(c0, ds, call) ==
   LET c == IF ds.img = "info" THEN [c0 EXCEPT !.mem = ds.built]
            ELSE IF ds.img = "header" THEN [c0 EXCEPT !.mem = ds.hbuilt] ELSE c0 IN
@@ -645,6 +682,11 @@ DesignStep(c0, ds, call) ==
                      LET r == IF s.kind = "tags" THEN DesignTagNext(c.mem, s.end, s.cur, s.dead)
                               ELSE DesignModNext(c.mem, s.end, s.cur, s.dead) IN
                      [o |-> r.o, ds |-> DsSetIt(ds, call.it, [s EXCEPT !.cur = r.cur, !.dead = r.dead])]
+    [] call.op \in {"nth", "count"} ->
+         IF ~DsHasIt(ds, call.it) THEN [o |-> Skipped, ds |-> ds]
+         ELSE LET r == DesignIterMany(c, ds, call.it, IF call.op = "nth" THEN call.n + 1 ELSE -1, 0) IN
+              IF call.op = "nth" THEN [o |-> NthView(r.o), ds |-> r.ds]
+              ELSE [o |-> IF r.o.k = "panic" THEN Panic ELSE Val(U64Bytes(r.cnt)), ds |-> ds]
     [] call.op \in {"len", "size_hint"} ->
          IF ~DsHasIt(ds, call.it) THEN [o |-> Skipped, ds |-> ds]
          ELSE LET s == ds.its[call.it] IN
@@ -720,6 +762,12 @@ DesignStep(c0, ds, call) ==
     [] call.op = "dbg" ->      \* Debug formatting: only the outcome class is specified (C01: controlled)
          [o |-> IF ds.loaded = "none" THEN Skipped ELSE Unit, ds |-> ds]
     [] OTHER -> [o |-> [k |-> "unsupported"], ds |-> ds]
+
+DesignIterMany(c, ds, it, left, cnt) ==
+  LET r == DesignStep(c, ds, [op |-> "next", it |-> it]) IN
+  IF r.o.k # "some" THEN [o |-> r.o, ds |-> r.ds, cnt |-> cnt]
+  ELSE IF left = 1 THEN [o |-> r.o, ds |-> r.ds, cnt |-> cnt + 1]
+  ELSE DesignIterMany(c, r.ds, it, IF left < 0 THEN left ELSE left - 1, cnt + 1)
 
 \* ---- dispatch -------------------------------------------------------------------------
 \* the image under test: after use_built, the bytes the builder produced (as observed)
